@@ -3,7 +3,7 @@ from __future__ import annotations
 
 from ..common import Check, drive, replay as _replay, uncps, cps, NPROC
 from ..serial import outcome
-from ..docs import rule_dict, plain_value
+from ..docs import rule_dict, convert_via, plain_value
 from ..backend import make_backend
 
 TYPE = {"value": "value_placeholders", "wildcard": "wildcard_placeholders", "qexpr": "query_expression_placeholders"}
@@ -33,9 +33,8 @@ def drive_case(case):
     from sigma.processing.pipeline import ProcessingPipeline
 
     def conv():
-        rule = SigmaRule.from_dict(rule_dict(case["doc"]))
         b = make_backend(K_of(case), ProcessingPipeline.from_dict(pipeline_dict(case)))
-        return [cps(q) for q in b.convert_rule(rule)]
+        return [cps(q) for q in convert_via(rule_dict(case["doc"]), b, case["id"])]
 
     ret = outcome(conv)
     return {"id": case["id"], "doc": case["doc"], "pipe": case["pipe"], "vars": case["vars"], "ret": ret}
